@@ -647,6 +647,9 @@ IGN_WORLDS = {
     "iirel": ([], [(["*.log"], ["*.o", "/Clips_proxy"])], []),
     "negate-later": ([], [(["*.txt"], None), (["!keep.txt"], None)], []),
     "later-ignored": ([], [([], None), (["*.tmp", "log", "src/tmp", "/build"], None), ([], None)], []),
+    # folders that are recorded first and excluded later by folder-only (trailing slash) patterns
+    "later-ignored-dirslash": ([], [([], None), (["log/", "tmp/deep/"], None), ([], None)], []),
+    "checktime-dirslash": ([], [([], None)], ["log/", "tmp/deep/"]),
     "dup": ([], [(["*.tmp", "*.tmp"], None), (["*.tmp"], ["*.tmp"])], []),
     "checktime": ([], [([], None)], ["*.tmp", "Clips"]),
     "nested": (["src", "tmp/deep"], [(["*.tmp"], None)], []),
